@@ -267,13 +267,24 @@ Fixpoint val_eqb (a b : value) {struct a} : bool :=
   | VUuid x, VUuid y => x =? y
   | VNode i _, VNode j _ => i =? j
   | VOffset e d, VOffset e' d' => val_eqb e e' && (d =? d')
-  | VTuple la, VTuple lb =>
+  | VTuple la, VTuple lb | VSeq la, VSeq lb =>
     (fix go (la lb : list value) : bool :=
        match la, lb with
        | [], [] => true
        | x :: la', y :: lb' => val_eqb x y && go la' lb'
        | _, _ => false
        end) la lb
+  (* containers as set elements / mapping keys are handed out in their hashable forms (serialization._hashable: a sequence as
+     a tuple, a set as a frozenset, a variant with such a value): tuples compare element by element, frozensets as sets,
+     variants by index and value *)
+  | VSet la, VSet lb =>
+    forallb (fun y => existsb (fun x => val_eqb x y) la) lb
+    && (fix every (la' : list value) : bool :=
+          match la' with
+          | [] => true
+          | x :: la'' => existsb (fun y => val_eqb x y) lb && every la''
+          end) la
+  | VVariant i x, VVariant j y => (i =? j) && val_eqb x y
   | _, _ => false
   end.
 
